@@ -369,6 +369,15 @@ def gen_program(rng, globals_, depth):
         ty = rng.choice(['int', 'int', 'seq', 'seq', 'bool', 'dur', 'dur', ('fn', 1, 'int'), 'dt'])
         if ty in ('dur', 'dt') and not any(t == 'dt' for t in scope.values()) and rng.random() < 0.5:
             ty = 'int'
+        dts = [n_ for n_, t in scope.items() if t == 'dts']
+        if dts and rng.random() < 0.5:
+            # a loop over a caller's sequence of dateTime objects
+            rv = rng.choice(dts)
+            x = g.pick_name(scope, avoid=(rv,))      # `for $x in $x` is rejected by the parser
+            inner = {**scope, x: 'dt'}
+            body = g.g_dur(inner, 1) if rng.random() < 0.7 else ('M', ('V', x), wrap_operand(g.g_dt(inner, 1)))
+            comps.append(('F', x, ('V', rv), wrap_body(body)))
+            continue
         comps.append(g.gen(ty, scope, depth))
     r = rng.random()
     if r < 0.30:
@@ -410,6 +419,27 @@ def gen_program(rng, globals_, depth):
             inner = ('F', y, mk_seq([('I', 3), ('I', 4)]), mk_call(('V', f), []))
         comps.append(('L', f, ('N', (), body), inner))
         flavour = 'dynamic-scope'
+    elif r < 0.46:
+        # several function items created by ONE inline function expression and called afterwards
+        free = [n_ for n_ in Gen.POOL + [6, 7] if n_ not in scope]
+        i, fs, f, a = rng.sample(free, 4)
+        rg = mk_seq([g.g_int(scope, 1) for _ in range(rng.randrange(2, 4))])
+        if i in names_in(rg):
+            rg = mk_seq([('I', 1), ('I', 2)])
+        body = g.g_int({**scope, i: 'int', a: 'int'}, 1)
+        body = ('A', wrap_operand(body), ('P', ('A', ('V', i), ('V', a))))
+        if rng.random() < 0.5:
+            mk = ('F', i, wrap_operand(rg), ('N', (a,), body))
+            use = ('F', f, ('V', fs), mk_call(('V', f), [g.g_int({**scope, f: 'x'}, 1)]))
+            comps.append(('L', fs, ('P', mk), wrap_body(use)))
+        else:
+            p_, q_ = rng.sample([n_ for n_ in free if n_ not in (i, fs, f, a)] + [8, 9], 2)
+            mk = ('N', (i,), ('N', (a,), body))
+            use = mk_seq([mk_call(('V', p_), [('I', rng.randrange(9))]), mk_call(('V', q_), [('I', rng.randrange(9))]),
+                          mk_call(mk_call(('V', fs), [('I', 7)]), [('I', 1)])])
+            comps.append(('L', fs, mk, ('L', p_, mk_call(('V', fs), [g.g_int(scope, 1)]),
+                                        ('L', q_, mk_call(('V', fs), [g.g_int(scope, 1)]), use))))
+        flavour = 'closures-from-one-expression'
     rng.shuffle(comps) if flavour == 'plain' else None
     return mk_seq(comps) if len(comps) > 1 or rng.random() < 0.5 else comps[0], flavour
 
@@ -420,8 +450,8 @@ def gen_case(rng, quick=True):
     pool = [0, 1, 2, 3, 4, 5]
     rng.shuffle(pool)
     for n in pool[:rng.choice([0, 1, 2, 2, 3])]:
-        globals_[n] = rng.choice(['int', 'int', 'seq', 'dt', 'dt'])
-    ndt = sum(1 for t in globals_.values() if t == 'dt')
+        globals_[n] = rng.choice(['int', 'int', 'seq', 'dt', 'dt', 'dts'])
+    ndt = sum(1 for t in globals_.values() if t in ('dt', 'dts'))
     heap = []
     for _ in range(ndt + (1 if ndt and rng.random() < 0.3 else 0)):
         heap.append((rng.randrange(-3 * 86400, 3 * 86400), None if rng.random() < 0.7 else rng.randrange(-20, 21) * 30))
@@ -439,8 +469,10 @@ def gen_case(rng, quick=True):
                 vs[n] = [('i', rng.randrange(-3, 30))]
             elif t == 'seq':
                 vs[n] = [('i', rng.randrange(0, 9)) for _ in range(rng.randrange(0, 4))]
-            else:
+            elif t == 'dt':
                 vs[n] = [('r', rng.choice(refs))]
+            else:
+                vs[n] = [('r', rng.choice(refs)) for _ in range(rng.randrange(0, 4))]
         var_sets.append(vs)
     for _ in range(nsteps):
         steps.append({'doc': rng.choice(docs), 'tz': rng.choice(tzs), 'vars': rng.randrange(len(var_sets)),
@@ -654,6 +686,10 @@ def run_impl(case):
         fvars = build_vars(s['vars'], shared=False)
         rec['fresh'] = guarded(lambda: elementpath.select(froot, src, namespaces=dict(NS), parser=XPath31Parser,
                                                           variables=fvars, timezone=tz))
+        fit = guarded(lambda: list(elementpath.iter_select(froot, src, namespaces=dict(NS), parser=XPath31Parser,
+                                                           variables=fvars, timezone=tz)))
+        if fit != rec['fresh'] and 'iter' not in rec:
+            rec['iter'] = fit
         out['steps'].append(rec)
     return out
 
@@ -677,9 +713,22 @@ def public_case(case, upto=None):
             'merge': case['merge'], 'ast': case['ast']}
 
 
+def limited_driver(run: Run, lines):
+    """the driver under a 12 GB address-space cap (a runaway evaluation must become a harness fault,
+    not take the shared machine down)"""
+    import resource
+    soft, hard = resource.getrlimit(resource.RLIMIT_AS)
+    cap = 12 * 1024 ** 3
+    try:
+        resource.setrlimit(resource.RLIMIT_AS, (cap if hard == resource.RLIM_INFINITY else min(cap, hard), hard))
+        return run.driver('C05', lines)
+    finally:
+        resource.setrlimit(resource.RLIMIT_AS, (soft, hard))
+
+
 def compare(run: Run, cases: list, stats=True) -> None:
     lines = [line_of(c) for c in cases]
-    answers = run.driver('C05', lines)
+    answers = limited_driver(run, lines)
     st = run.stats
     for case, line, ans in zip(cases, lines, answers):
         if ans.startswith('bad-'):
@@ -850,6 +899,127 @@ def search(run: Run):
     return sub.disagreements
 
 
+# ------------------------------------------------------------ typing of generated programs
+class IllTyped(Exception):
+    pass
+
+
+def typeof(e, scope):
+    """the typing discipline of `Gen` (used to keep the shrinker inside the fragment the model covers:
+    no type errors, no unbound references except as strict top-level components)"""
+    t = e[0]
+    if t == 'I':
+        return 'int'
+    if t == 'V':
+        if e[1] in DOCVARS:
+            return 'int'
+        if e[1] not in scope:
+            raise IllTyped(f'unbound v{e[1]}')
+        return scope[e[1]]
+    if t == 'E':
+        return 'seq'
+    if t == 'P':
+        return typeof(e[1], scope)
+    if t == 'S':
+        a, b = typeof(e[1], scope), typeof(e[2], scope)
+        if isinstance(a, tuple) and a[0] in ('fn', 'seqfn') and e[2] == ('E',):
+            return ('seqfn', a if a[0] == 'fn' else a[1])
+        return 'seq' if a in ('int', 'seq') and b in ('int', 'seq') else 'mixed'
+    if t in ('A', 'M'):
+        a, b = typeof(e[1], scope), typeof(e[2], scope)
+        if a == b == 'int':
+            return 'int'
+        if t == 'M' and a == b == 'dt':
+            return 'dur'
+        raise IllTyped(f'{t} on {a},{b}')
+    if t == 'Q':
+        a, b = typeof(e[1], scope), typeof(e[2], scope)
+        if a in ('int', 'seq') and b in ('int', 'seq'):
+            return 'bool'
+        raise IllTyped('= on ' + str((a, b)))
+    if t == 'D':
+        return 'dt'
+    if t == 'Z':
+        if typeof(e[1], scope) != 'dt':
+            raise IllTyped('Z')
+        return 'dur'
+    if t == 'L':
+        return typeof(e[3], {**scope, e[1]: typeof(e[2], scope)})
+    if t in ('F', 'O', 'Y'):
+        r = typeof(e[2], scope)
+        if isinstance(r, tuple) and r[0] == 'fn':
+            r = ('seqfn', r)
+        if not (r in ('int', 'seq', 'dts') or (isinstance(r, tuple) and r[0] == 'seqfn')) or e[1] in names_in(e[2]):
+            raise IllTyped('range')
+        b = typeof(e[3], {**scope, e[1]: 'int' if r in ('int', 'seq') else ('dt' if r == 'dts' else r[1])})
+        if t == 'F':
+            if b == 'dur':
+                return 'mixed'
+            if isinstance(b, tuple) and b[0] == 'fn':
+                return ('seqfn', b)
+            if b not in ('int', 'seq'):
+                raise IllTyped('for body')
+            return 'seq'
+        if b not in ('int', 'bool'):
+            raise IllTyped('quantifier body')
+        return 'bool'
+    if t == 'N':
+        if len(set(e[1])) != len(e[1]):
+            raise IllTyped('duplicate parameter')
+        return ('fn', len(e[1]), typeof(e[2], {**scope, **{p: 'int' for p in e[1]}}))
+    if t == 'C0':
+        f = typeof(e[1], scope)
+        if not (isinstance(f, tuple) and f[1] == 0):
+            raise IllTyped('call0')
+        return f[2]
+    if t == 'C':
+        f = typeof(e[1], scope)
+        args = []
+        a = e[2]
+        while a[0] == 'S':
+            args.append(a[2])
+            a = a[1]
+        args.append(a)
+        if not (isinstance(f, tuple) and f[1] == len(args)) or any(typeof(x, scope) != 'int' for x in args):
+            raise IllTyped('call')
+        return f[2]
+    raise IllTyped(str(t))
+
+
+def global_types(var_sets):
+    out = {}
+    for n in var_sets[0]:
+        items = [vs[n] for vs in var_sets]
+        if all(len(i) == 1 and i[0][0] == 'r' for i in items):
+            out[n] = 'dt'
+        elif any(x[0] == 'r' for i in items for x in i) or (all(len(i) == 0 for i in items)):
+            out[n] = 'dts' if any(x[0] == 'r' for i in items for x in i) else 'seq'
+        elif all(len(i) == 1 for i in items):
+            out[n] = 'int'
+        else:
+            out[n] = 'seq'
+    return out
+
+
+def in_fragment(ast, var_sets) -> bool:
+    """well typed; an unbound reference only as a whole top-level component"""
+    scope = global_types(var_sets)
+    comps = []
+    a = ast[1] if ast[0] == 'P' else ast
+    while a[0] == 'S':
+        comps.append(a[2])
+        a = a[1]
+    comps.append(a)
+    try:
+        for c in comps:
+            if c[0] == 'V' and c[1] not in scope and c[1] not in DOCVARS:
+                continue
+            typeof(c, scope)
+        return True
+    except IllTyped:
+        return False
+
+
 # --------------------------------------------------------------------------- shrink
 def sub_asts(e):
     """candidate replacements of e by something smaller"""
@@ -912,7 +1082,7 @@ def shrink(d: Disagreement) -> Disagreement:
                 key = encode(r)
             except Exception:  # noqa
                 continue
-            if key in seen or size_of(r) >= size_of(best['ast']):
+            if key in seen or size_of(r) >= size_of(best['ast']) or not in_fragment(r, case['var_sets']):
                 continue
             seen.add(key)
             cands.append(as_case(r, best['steps']))
